@@ -17,9 +17,11 @@ a placeholder under (package, schema) and hands back the pointer registered ther
 therefore splits every import function into its pure result (`fieldFromDesc` …) and the list of
 references it registers (`fieldRefs` …); `importSet` replays the registrations on the `Env`.
 
-Go's partial operations are explicit `.panic` arms: `schemaFromDesc` dereferences its argument
-(`schema.Type`), so an absent `ArrayField.items`, `MapField.item_schema` or
-`ObjectProperty.schema` panics.
+Go's partial operations are explicit `.panic` arms. `schemaFromDesc` used to dereference its
+argument (`schema.Type`) unchecked, so an absent `ArrayField.items`, `MapField.item_schema` or
+`ObjectProperty.schema` panicked; since the nil check it is the error "missing field schema", and
+the only `.panic` arms left are the provably unreachable ones after `objectFromDesc` /
+`oneofFromDesc` (`C15_importer_never_panics`).
 -/
 namespace J5V.Schema
 open J5V.Go
@@ -127,13 +129,13 @@ def fieldFromDesc (pkg : String) : DField → Outcome SField
   | .enumRef r rules lr ext => .ok (.enum ⟨r.pkg, r.schema, true⟩ rules lr ext)
   | .enumInline e rules lr ext => .ok (.enum ⟨pkg, e.name, false⟩ rules lr ext)
   | .enumNone _ _ _ => .err "unsupported enum schema type"
-  | .array none _ _ => .panic "nil dereference: ArrayField.items"
+  | .array none _ _ => .err "missing field schema"
   | .array (some items) rules ext =>
     match fieldFromDesc pkg items with
     | .ok f => .ok (.array f rules ext)
     | .err e => .err e
     | .panic w => .panic w
-  | .map none _ _ _ => .panic "nil dereference: MapField.item_schema"
+  | .map none _ _ _ => .err "missing field schema"
   | .map (some item) _ rules ext =>
     match fieldFromDesc pkg item with
     | .ok f => .ok (.map f rules ext)
@@ -142,7 +144,7 @@ def fieldFromDesc (pkg : String) : DField → Outcome SField
 
 /-- `objectPropertyFromDesc` -/
 def propFromDesc (pkg : String) : DProp → Outcome SProp
-  | .mk _ _ _ _ _ none => .panic "nil dereference: ObjectProperty.schema"
+  | .mk _ _ _ _ _ none => .err "missing field schema"
   | .mk name required explicitlyOptional description protoField (some schema) =>
     match fieldFromDesc pkg schema with
     | .ok f => .ok ⟨name, required, explicitlyOptional, false, false, description, protoField, f⟩
